@@ -400,7 +400,7 @@ def copy_node(n):
     return _c.deepcopy(n)
 
 
-def conc_template(depth, fan, width=2, map_at=None, async_leaves=True, sync_last=False, pool=False, gen_last=False):
+def conc_template(depth, fan, width=2, map_at=None, async_leaves=True, sync_last=False, pool=False, gen_last=False, bad_arity=False):
     """Nested / mapped shape for the concurrency checks: `depth` nested graph levels, each with
     `width` parallel leaves and a join; at level `map_at` the nested node maps over a list of `fan`
     items.  Returns (prog, provided, lists)."""
@@ -415,6 +415,10 @@ def conc_template(depth, fan, width=2, map_at=None, async_leaves=True, sync_last
         `vs` when a deeper level maps over it), output `r{d}`; with sync_last the last leaf of every
         level is a SYNCHRONOUS function (listed after the async ones, so that they hold their slots first)"""
         leaves = [A(f"L{d}_{i}", ["v"], [f"l{d}_{i}"], sync=sync_last and i == width - 1) for i in range(width)]
+        if bad_arity and d == 1:
+            # the first leaf of every ITEM declares two outputs and returns one value: the item fails (continue mode) while
+            # the framework holds the leaf's slot
+            leaves[0] = IR.func(f"L{d}_0", ["v"], [f"l{d}_0", f"l{d}_0b"], is_async=async_leaves, fn="short")
         nodes = list(leaves)
         join_in = [f"l{d}_{i}" for i in range(width)]
         if d < depth:
@@ -436,7 +440,7 @@ def conc_template(depth, fan, width=2, map_at=None, async_leaves=True, sync_last
         sub = level(1)
         if map_at == 1:
             top_nodes.append(IR.graph_node(sub, name="G1", inputs=["vs"], inmap=[["vs", "v"]], outputs=["r1"], outmap=[["r1", "r1"]],
-                                           map_over=["vs"], map_mode="zip", map_eh="raise"))
+                                           map_over=["vs"], map_mode="zip", map_eh="continue" if bad_arity else "raise"))
         else:
             ins = ["v"] + (["vs"] if map_at is not None and map_at > 1 else [])
             top_nodes.append(IR.graph_node(sub, name="G1", inputs=ins, inmap=[[p, p] for p in ins], outputs=["r1"], outmap=[["r1", "r1"]]))
